@@ -32,6 +32,9 @@ pub enum Op {
     EmitBoom,
     /// record the `shared` field on the *parent* of the current span (the child already exists)
     RecordParent(u8),
+    /// try to create a span whose field value panics in the middle of formatting itself (caught at
+    /// the call site): the span never comes to exist, and nothing of it may show up anywhere later
+    EnterBoom(u8),
 }
 
 #[derive(Clone, Debug, Serialize, Deserialize)]
@@ -56,6 +59,15 @@ impl std::fmt::Debug for Yielding {
             dsim::point("c17.value.fmt");
         }
         write!(f, "{}", self.0)
+    }
+}
+/// A field value whose Debug impl writes part of its output and then panics.
+struct Exploding(String);
+struct ValuePanic;
+impl std::fmt::Debug for Exploding {
+    fn fmt(&self, f: &mut std::fmt::Formatter<'_>) -> std::fmt::Result {
+        write!(f, "partial-{}-", self.0)?;
+        std::panic::resume_unwind(Box::new(ValuePanic));
     }
 }
 struct Plain(u64);
@@ -133,9 +145,10 @@ impl Scenario for C17Tracing {
                             Op::Exit
                         }
                         4 => Op::Record(r.below(2) as u8, r.below(4) as u8),
-                        5 => match r.below(4) {
+                        5 => match r.below(5) {
                             0 => Op::EmitBoom,
                             1 => Op::RecordParent(r.below(4) as u8),
+                            4 => Op::EnterBoom(r.below(4) as u8),
                             _ => Op::Record(r.below(2) as u8, r.below(4) as u8),
                         },
                         _ => Op::Emit(r.below(16) as u8, r.below(4) as u8),
@@ -236,6 +249,14 @@ impl Scenario for C17Tracing {
                                         // only the parent's own view changes: the child took its copy when
                                         // it was created
                                         model[n - 2].1.insert("shared".into(), val.to_string());
+                                    }
+                                }
+                                Op::EnterBoom(v) => {
+                                    let r = std::panic::catch_unwind(std::panic::AssertUnwindSafe(|| drop(span!(tracing::Level::INFO, "boom", shared = ?Exploding(val(*v)), leaf = "never"))));
+                                    if let Err(p) = r {
+                                        if !p.is::<ValuePanic>() {
+                                            std::panic::resume_unwind(p);
+                                        }
                                     }
                                 }
                                 Op::EmitBoom if filter == 3 => {
